@@ -18,7 +18,7 @@ VERUS_UNITS = {
 
 PROPERTIES = {
     "C01": {"verus": ["V-frame", "V-range", "V-index", "V-prec", "V-emit", "V-truthy"], "kani": ["K-number"]},
-    "C05": {"verus": ["V-frame", "V-emit"], "kani": ["K-emit", "K-varint"]},
+    "C05": {"verus": ["V-frame", "V-emit", "V-vmproto"], "kani": ["K-emit", "K-varint"]},
     "C06": {"verus": ["V-frame", "V-vmproto", "V-range", "V-lexer", "V-cursors", "V-adaptors", "V-strslice", "V-index", "V-debuginfo", "V-bind", "V-emit"], "kani": ["K-number", "K-emit", "K-strslice", "K-varint"]},
     "C02": {"verus": ["V-bind"], "kani": []},
     "C04": {"verus": ["V-vmproto"], "kani": []},
